@@ -251,6 +251,8 @@ func main() {
 		cmdCheck(os.Args[2:])
 	case "replay":
 		cmdReplay(os.Args[2:])
+	case "selftest":
+		cmdSelftest(os.Args[2:])
 	case "build":
 		buildWorker(nil, false)
 		fmt.Println("worker built")
@@ -700,6 +702,88 @@ func firstLine(s string) string {
 
 var exhaustiveDone bool
 var productSize int
+
+// cmdSelftest: determinism. Every scenario's first N run indices are executed in
+// several separate processes at GOMAXPROCS 1, 4 and 16 (twice at 4); the lines
+// "run index=.. steps=.. strategy=.. digest=.. violation=.." must be identical.
+func cmdSelftest(args []string) {
+	fs := flag.NewFlagSet("selftest", flag.ExitOnError)
+	n := fs.Int("runs", 60, "run indices per scenario")
+	only := fs.String("only", "", "comma-separated property ids")
+	fs.Parse(args)
+	ids := []string{}
+	for id := range specs {
+		if *only == "" || strings.Contains(","+*only+",", ","+id+",") {
+			ids = append(ids, id)
+		}
+	}
+	sort.Strings(ids)
+	bad := 0
+	for _, id := range ids {
+		spec := specs[id]
+		bin := buildWorker(spec, false)
+		var outs []string
+		for _, gmp := range []string{"1", "4", "4", "16"} {
+			for _, seed := range []string{"7"} {
+				cmd := exec.Command(bin, "-test.run", "TestWorker", "-test.timeout", "30m")
+				cmd.Dir = verifDir
+				cmd.Env = append(os.Environ(), "VERIF_CHECK="+id, "VERIF_TIER=quick", "VERIF_SEED="+seed, "VERIF_FROM=0", "VERIF_TO="+strconv.Itoa(*n),
+					"VERIF_VERBOSE=1", "GOMAXPROCS="+gmp, "VERIF_MAX_VIOLATIONS=1000000", "VERIF_MIN_ATTEMPTS=0")
+				b, _ := cmd.CombinedOutput()
+				var lines []string
+				for _, l := range strings.Split(string(b), "\n") {
+					if strings.HasPrefix(l, "run index=") {
+						// step counts after a cancellation may differ (runtime's
+						// choice among ready select cases); everything else must not
+						f := strings.Fields(l)
+						var keep []string
+						for _, w := range f {
+							if !strings.HasPrefix(w, "steps=") {
+								keep = append(keep, w)
+							}
+						}
+						lines = append(lines, strings.Join(keep, " "))
+					}
+				}
+				outs = append(outs, strings.Join(lines, "\n"))
+			}
+		}
+		same := true
+		for _, o := range outs[1:] {
+			if o != outs[0] {
+				same = false
+			}
+		}
+		nl := strings.Count(outs[0], "\n") + 1
+		if same && outs[0] != "" {
+			fmt.Printf("selftest determinism %s: OK (%d runs x %d processes, GOMAXPROCS 1/4/4/16 identical)\n", id, nl, len(outs))
+		} else {
+			bad++
+			fmt.Printf("selftest determinism %s: MISMATCH\n", id)
+			a, b := strings.Split(outs[0], "\n"), []string{}
+			for _, o := range outs[1:] {
+				if o != outs[0] {
+					b = strings.Split(o, "\n")
+					break
+				}
+			}
+			for i := range a {
+				if i >= len(b) || a[i] != b[i] {
+					fmt.Printf("  first difference at line %d:\n   %s\n   %s\n", i, a[i], func() string {
+						if i < len(b) {
+							return b[i]
+						}
+						return "<missing>"
+					}())
+					break
+				}
+			}
+		}
+	}
+	if bad > 0 {
+		os.Exit(1)
+	}
+}
 
 var crashHandlers = map[string]func(crashed []string, logs []string) bool{}
 
